@@ -290,6 +290,40 @@ def r10(ctx, rep):
     rep.borrowed(C16.r8, ctx, "C05.R11", "an exclusion `select !{t.x}` applies to the input of that alias only", only=r"^qualifier:")
 
 
+ORDER_BREAKING = {"retain", "retain_mut", "remove", "swap_remove", "drain", "dedup", "dedup_by", "dedup_by_key", "sort", "sort_by", "sort_by_key", "sort_unstable", "sort_unstable_by",
+                  "sort_unstable_by_key", "reverse", "insert", "rotate_left", "rotate_right", "swap", "extract_if"}
+
+
+def r12(ctx, rep):
+    rep.rule("C05.R12", "a star absorbs only the columns standing directly before it, and carries its exclusions whether or not it is qualified", floor=3)
+    from alpha import Inliner
+    syn = ctx.syn
+    f = syn.fn("gen_projection::translate_wildcards", crate="prqlc")
+    # role anchor: the Vec that is the first component of the returned pair
+    t = tail_expr(f["body"])
+    out_name = show(t["e"][0]) if t is not None and t.get("k") == "tuple" and t.get("e") else None
+    if out_name is None:
+        raise AnchorMissing("translate_wildcards: returned (columns, excluded) pair")
+    muts = sorted({n["m"] for n in walk(f["body"]) if n.get("k") == "mcall" and show(n["r"]) == out_name and n["m"] in ORDER_BREAKING})
+    rep.check(not muts, "star-absorbs-adjacent", f"translate_wildcards edits the output list `{out_name}` with {muts}: a column of the star's relation is dropped from the list only while it stands directly "
+              "before the star (popped from the end); removing it from anywhere moves the columns between them: `select {t.a, u.b, t.*}` would come out as `u.b, t.a, t.*`",
+              file=f["file"], line=f["l"], fn=f["path"])
+    pops = [n for n in walk(f["body"]) if n.get("k") == "mcall" and show(n["r"]) == out_name and n["m"] in ("pop", "truncate", "split_off")]
+    rep.check(len(pops) >= 1, "star-absorbs-from-end", f"expected the preceding columns of a star to be taken from the end of `{out_name}` (pop / truncate), found {len(pops)} such call(s)",
+              file=f["file"], line=f["l"], fn=f["path"])
+    g = syn.fn("gen_projection::translate_select_items", crate="prqlc")
+    inl = Inliner(g, maxdepth=14, max_inline=4)
+    n_star = 0
+    for n in walk(g["body"]):
+        if n.get("k") == "call" and last_seg(show(n["f"])) in ("Wildcard", "QualifiedWildcard") and "SelectItem" in show(n["f"]):
+            n_star += 1
+            opt = inl.show(n["a"][-1])
+            rep.check("translate_exclude(" in opt and ".remove(" in opt, f"star-options:{last_seg(show(n['f']))}", f"`{show(n['f'])}` is built with options `{opt[:120]}`: the exclusion set recorded for this star "
+                      "(`excluded.remove(&cid)` -> translate_exclude) must reach both the bare `*` and the qualified `t.*`, otherwise `select !{t1.a}` after a join emits `t1.*, t2.*` and the column is back",
+                      file=g["file"], line=n["l"], fn=g["path"])
+    rep.check(n_star == 2, "star-constructors", f"expected SelectItem::Wildcard and SelectItem::QualifiedWildcard in translate_select_items, found {n_star}", file=g["file"], line=g["l"], fn=g["path"])
+
+
 def run(ctx, rep):
-    for r in (r1, r2, r3, r4, r5, r6, r7, r8, r9, r10):
+    for r in (r1, r2, r3, r4, r5, r6, r7, r8, r9, r10, r12):
         rep.guard(r, ctx)
